@@ -69,6 +69,16 @@ CHECKS = {
         note='Trusted: TLC; flask_login stand-in (session protocol only); the role oracle in spec/Auth.tla; sqlite3 digests. The vacuity '
              'guard lists which mutating routes were shown to change state for an authorised role (evidence: sweep_effective_route_methods).',
         design='4 C15'),
+    'C16': dict(
+        technique='TLA+ spec Injection.tla: TLC exhaustive session-counter machine; injection walks with two cookie jars replayed on the real '
+                  'service; generated robustness grid (route class x registered option x value class x stream class, MP4 mutations) judged by TLC',
+        text='TLC explores every request sequence (depth 6, 2 clients, 3 positions, 6 injection specifications, failure count absent/1/2) of '
+             'the implementation-shaped counter machine against the property-level clauses; the same specifications are driven through '
+             'real video/audio/text/manifest requests and validated (clauses + model drift); a grid generated from the live option registry '
+             'and broken streams / mutated MP4 input is sent with exception propagation off under a wall-clock cap and TLC judges every status.',
+        note='Trusted: TLC, shims, the SIGALRM wall-clock cap. The open-ended half of the property is exploration over a generated grid, not '
+             'a proof (level_note in DESIGN.md section 7). Remaining 500s are listed one by one in known_findings.json by exception type and call site.',
+        design='4 C16'),
     'C20': dict(
         technique='TLA+ spec BufferedReader.tla: TLC exhaustive refinement check (implementation-shaped cache model vs '
                   'in-memory stream) + every model edge replayed on the real class + TLC trace validation of recorded calls',
